@@ -1149,6 +1149,9 @@ impl Domain for Dm {
     fn gen(&self, tier: &str, seed: u64, w: &mut dyn Write) {
         let mut rng = Rng::new(seed ^ 0x67616d656e6574);
         let thorough = tier == "thorough";
+        // the encode-from-value requests need the typed construction table (struct literals of the
+        // crates' types), which ./check drops when it does not build (soft feature)
+        let typed = cfg!(feature = "gamenet_typed");
         let randoms = if thorough { 40 } else { 2 };
         let nrand = if thorough { 200 } else { 5 };
         for pr in protos() {
@@ -1169,7 +1172,7 @@ impl Domain for Dm {
                             writeln!(w, "{} {} {} {}", op, p, to_hex(&bytes), expect_of(c)).unwrap();
                         }
                         if let Some(v) = &c.val {
-                            writeln!(w, "{} {} {} {}", bop, p, bname, v).unwrap();
+                            if typed { writeln!(w, "{} {} {} {}", bop, p, bname, v).unwrap(); }
                         }
                     }
                     // truncation at every position, trailing bytes, random tails
@@ -1234,7 +1237,7 @@ impl Domain for Dm {
                         if let Some(v) = &c.val {
                             let caps: Vec<usize> = if n <= 40 || thorough { (0..=n + 1).collect() } else { vec![0, 1, idb.len(), n / 2, n - 1, n, n + 1] };
                             for cap in caps {
-                                writeln!(w, "{} {} {} {} {}", bop, p, capname, v, cap).unwrap();
+                                if typed { writeln!(w, "{} {} {} {} {}", bop, p, capname, v, cap).unwrap(); }
                             }
                         }
                     }
@@ -1246,15 +1249,15 @@ impl Domain for Dm {
                             let mut vs: Vec<String> = vals.into_iter().map(|v| v.unwrap()).collect();
                             vs[i] = "x610062".to_string();
                             let v = format!("[{}]", vs.join(","));
-                            writeln!(w, "{} {} {} {}", bop, p, bname, v).unwrap();
+                            if typed { writeln!(w, "{} {} {} {}", bop, p, bname, v).unwrap(); }
                             for cap in 0..=(idb.len() + 12) {
-                                writeln!(w, "{} {} {} {} {}", bop, p, capname, v, cap).unwrap();
+                                if typed { writeln!(w, "{} {} {} {} {}", bop, p, capname, v, cap).unwrap(); }
                             }
                         }
                     }
                     // values of the wrong shape
-                    writeln!(w, "{} {} {} []", bop, p, bname).unwrap();
-                    writeln!(w, "{} {} {} [i0]", bop, p, bname).unwrap();
+                    if typed { writeln!(w, "{} {} {} []", bop, p, bname).unwrap(); }
+                    if typed { writeln!(w, "{} {} {} [i0]", bop, p, bname).unwrap(); }
                 }
             }
             // ---- message ids: every small id with an empty and a short body, unknown uuids
@@ -1309,7 +1312,7 @@ impl Domain for Dm {
                         }
                     }
                     if let Some(v) = &c.val {
-                        writeln!(w, "bobj {} {} {}", p, d.name, v).unwrap();
+                        if typed { writeln!(w, "bobj {} {} {}", p, d.name, v).unwrap(); }
                     }
                 }
                 let base = cs[0].ints.clone();
@@ -1338,7 +1341,7 @@ impl Domain for Dm {
                 for pos in 0..base.len() {
                     writeln!(w, "hobjpos {} {} {} {} {} {}", p, ids, ints_str(&base), pos, lo, hi).unwrap();
                 }
-                writeln!(w, "bobj {} {} []", p, d.name).unwrap();
+                if typed { writeln!(w, "bobj {} {} []", p, d.name).unwrap(); }
             }
             for id in 0u32..70 {
                 writeln!(w, "size {} {}", p, id).unwrap();
